@@ -303,6 +303,13 @@ func genConcOp(r *Rng, w *world, mine *[][]byte, uid *uint64, cfg ConcCfg) *Op {
 			return &Op{K: OpRemove, H: w.dirs[0], Name: "big"}
 		case 1:
 			*uid++
+			if r.Intn(3) == 0 {
+				// across the end that a truncation to 5000 bytes leaves, then read
+				return &Op{K: OpWrite, H: w.big, Off: 4096 + uint64(r.Intn(800)), Count: 3000, DataLen: 3000, Uid: *uid, Stable: r.Intn(3)}
+			}
+			if r.Intn(4) == 0 {
+				return &Op{K: OpRead, H: w.big, Off: 0, Count: 32768}
+			}
 			return &Op{K: OpWrite, H: w.big, Off: r.Pick([]uint64{0, 100 * BlockSize, 550 * BlockSize}), Count: 4096, DataLen: 4096, Uid: *uid, Stable: r.Intn(3)}
 		default:
 			return &Op{K: OpSetattr, H: w.big, SetSize: true, Size: r.Pick([]uint64{0, 5000, 20 * BlockSize, 300 * BlockSize, 590 * BlockSize})}
